@@ -433,6 +433,20 @@ def interpret(fn, rep):
                     I.env[e[2][1]] = v if e[1] == "=" else cur.add(v, 1 if e[1] == "+=" else -1)
                 else:
                     raise Unab("statement %s" % A.show(e)[:60])
+            elif k in ("CallExpr", "CXXMemberCallExpr"):
+                # in-place application of a factor of the decomposition: ldlt.matrixL().solveInPlace(w), w = P w
+                e = A.to_expr(s)
+                ok = False
+                if e[0] == "mcall" and e[2] == "solveInPlace" and len(e[4]) == 1 and e[4][0][0] == "ref" and e[4][0][1] in I.env:
+                    obj = e[1]
+                    if obj[0] == "mcall" and obj[1][0] == "ref" and obj[1][1] in I.fact and obj[2] in ("matrixL", "matrixU"):
+                        I.env[e[4][0][1]] = I.ev(("mcall", obj, "solve", None, [e[4][0]]))
+                        ok = True
+                    elif obj[0] == "ref" and obj[1] in I.fact:
+                        I.env[e[4][0][1]] = I.ev(("mcall", obj, "solve", None, [e[4][0]]))
+                        ok = True
+                if not ok:
+                    raise Unab("call statement %s" % A.show(e)[:60])
             elif k in ("NullStmt", "CompoundStmt") or k is None:
                 if k == "CompoundStmt":
                     run_block(I, A.kids(s), label)
